@@ -89,7 +89,7 @@ fn pts_x<F: RF>(p: &Pt<F>) -> F {
     }
 }
 
-fn iso_checks<S: Suite>(ctx: &Ctx, pts: &[Pt<S::K>], lams: &[S::K], bound: usize, kernel: &[Pt<S::K>], expected_lens: [usize; 4]) {
+fn iso_checks<S: Suite>(ctx: &Ctx, pts: &[Pt<S::K>], lams: &[S::K], bound: usize, kernel: &[Pt<S::K>], expected_lens: [usize; 4], specials: &[S::K]) {
     let name = S::NAME;
     let tables = S::lib_iso();
     let e = S::curve();
@@ -236,6 +236,81 @@ fn iso_checks<S: Suite>(ctx: &Ctx, pts: &[Pt<S::K>], lams: &[S::K], bound: usize
             },
         );
     }
+    // PRESCRIBED OPERANDS of the Horner evaluation.  The evaluation adds, step by step, the terms k_j Z^(2j) to acc * X.  For a
+    // special value T (in-memory residue with saturated limbs / limbs equal to the limbs of q) the representative with
+    // Z^(2j) = T / k_j (Z by repeated square roots, j a power of two) makes that TERM equal to T, and the representative with
+    // X = T / k_lead makes the first PRODUCT equal to T, in each of the four maps.  An addition or multiplication written on
+    // the raw limbs (lazy reduction, hand-rolled carry chain) goes wrong on such operands only.
+    {
+        let base: Vec<&Pt<S::K>> = pts.iter().filter(|p| matches!(p, Pt::Aff(x, _) if !x.is_zero())).take(ctx.tier.pick(2, 4)).collect();
+        let want_per_slot = ctx.tier.pick(6usize, 40);
+        let mut cases: Vec<(usize, S::K, String)> = vec![];
+        for (ti, t) in tables.iter().enumerate() {
+            let clen = t.len() - 1;
+            // terms: tmp[jdx] = t[clen-1-jdx] * Z^(2(jdx+1)); jdx+1 = 1, 2, 4, 8
+            for lg in 0..4usize {
+                let jdx = (1usize << lg) - 1;
+                if jdx >= clen || t[clen - 1 - jdx].is_zero() {
+                    continue;
+                }
+                let kinv = t[clen - 1 - jdx].inv().unwrap();
+                let mut found = 0;
+                for tv in specials {
+                    if found >= want_per_slot {
+                        break;
+                    }
+                    // Z^(2^(lg+1)) = T / k: lg+1 successive square roots
+                    let mut z = Some(tv.mul(&kinv));
+                    for _ in 0..=lg {
+                        z = z.and_then(|v| S::sqrt(&v));
+                    }
+                    if let Some(z) = z {
+                        if z.is_zero() {
+                            continue;
+                        }
+                        found += 1;
+                        cases.push((found % base.len(), z, format!("map {} term {} (coefficient x Z^{}) = special value", ti, jdx, 2 * (jdx + 1))));
+                    }
+                }
+            }
+            // first product: lead * X with X = x lambda^2
+            let lead_inv = t[clen].inv().unwrap();
+            let mut found = 0;
+            for tv in specials {
+                if found >= want_per_slot {
+                    break;
+                }
+                let bi = found % base.len();
+                if let Pt::Aff(x, _) = base[bi] {
+                    if let Some(l) = S::sqrt(&tv.mul(&lead_inv).mul(&x.inv().unwrap())) {
+                        if l.is_zero() {
+                            continue;
+                        }
+                        found += 1;
+                        cases.push((bi, l, format!("map {} first product (leading coefficient x X) = special value", ti)));
+                    }
+                }
+            }
+        }
+        ctx.require(cases.len() >= 8, &format!("{}: too few representatives with prescribed Horner operands", name));
+        ctx.sweep(
+            &format!("{}.iso_points.prescribed_horner_operands", name),
+            cases.len() as u64,
+            |i| json!({"point_on_iso_curve": S::show(base[cases[i as usize].0]), "lambda": S::showk(&cases[i as usize].1), "operand": cases[i as usize].2}),
+            |i| {
+                let (bi, lam, cls) = &cases[i as usize];
+                let p = base[*bi];
+                let mut jp = S::rep(p, lam);
+                guard(|| S::lib_iso_map(&mut jp)).map_err(|m| Fail::new(format!("{}: isogeny_map panicked: {}", name, m)))?;
+                let got = S::pt_of(&jp);
+                let want = ref_iso(&tables, p);
+                if got != want {
+                    return Err(Fail::with(format!("{}: isogeny_map differs from the affine rational map on a representative with a prescribed operand of the evaluation ({})", name, cls), json!({"got": S::show(&got), "want": S::show(&want)})));
+                }
+                Ok("prescribed Horner operand")
+            },
+        );
+    }
     // identity encodings and kernel points map to the identity
     let zero = S::K::zero();
     let mut ids: Vec<(String, S::Proj)> = vec![("(0,1,0)".into(), S::raw(&zero, &S::K::one(), &zero)), ("(0,0,0)".into(), S::raw(&zero, &zero, &zero))];
@@ -358,12 +433,15 @@ pub fn run(ctx: &Ctx) -> (&'static str, &'static str) {
     let p1: Vec<Pt<Q1>> = p1.iter().take(2).cloned().chain(hz1.into_iter()).chain(p1.iter().skip(2).cloned()).collect();
     let k1 = g1_kernel_points(ctx);
     ctx.extra("G1 rational kernel points found", json!(k1.len()));
-    iso_checks::<RG1>(ctx, &p1, &l1, 306, &k1, [12, 11, 16, 16]);
+    // special values for the prescribed-operand representatives: limb-pattern residues (low limbs saturated first)
+    let sp1: Vec<Q1> = alpha::values_of_residues(q, 6, &alpha::limb_pattern_residues(q, 6, ctx.tier.pick(2, 3), false)).into_iter().filter(|v| !alpha::is_zero(v)).map(Q1::new).collect();
+    let sp2: Vec<Q2> = (0..sp1.len()).map(|i| Q2::new(vec![sp1[i].clone(), sp1[(i * 7 + 3) % sp1.len()].clone()])).collect();
+    iso_checks::<RG1>(ctx, &p1, &l1, 306, &k1, [12, 11, 16, 16], &sp1);
     let p2 = iso_points::<RG2>(ctx, ctx.tier.pick(80, 1000), &|k| q2u(k, 1), &|r| Q2::new(vec![Q1::new(alpha::rand_below(r, q)), Q1::new(alpha::rand_below(r, q))]));
     let hz2 = horner_zero_points::<RG2>(ctx, &(q * q), &|r| Q2::new(vec![Q1::new(alpha::rand_below(r, q)), Q1::new(alpha::rand_below(r, q))]));
     let p2: Vec<Pt<Q2>> = p2.iter().take(2).cloned().chain(hz2.into_iter()).chain(p2.iter().skip(2).cloned()).collect();
     ctx.note("G2: #E2'(Fq2) = h2*r is not divisible by 3, so the 3-isogeny has no rational kernel points; only identity encodings are checked there");
-    iso_checks::<RG2>(ctx, &p2, &l2, 66, &[], [4, 3, 4, 4]);
+    iso_checks::<RG2>(ctx, &p2, &l2, 66, &[], [4, 3, 4, 4], &sp2);
     ctx.assume("degree bound: Y^2 - X^3 - b Z^6 composed with the table-defined map has pole order <= 306 (G1) / 66 (G2) at infinity on E'; vanishing on more distinct points proves the image lies on E for every point, and a morphism fixing O is a homomorphism");
     ctx.assume("that the coefficient values are RFC appendix E's rather than another isogeny of the same degree between the same curves rests on the RFC Appendix J vectors (checked in C06/C14) and the repository's own pinned vectors");
     (
